@@ -667,3 +667,49 @@ class DetectionPostprocess(Contract):
 
     def frame_ok(self, I, inp, obj, name):
         return name in ("parent", "source")
+
+
+@register
+class ConditionGroup(Contract):
+    """convert_condition_group: the converted condition inside the group template - ALWAYS (whatever the text of the converted condition
+    looks like: `(A) or (B)` begins and ends with parentheses and is not grouped); deferred parts and vanished conditions pass through;
+    without a group template the backend cannot group"""
+    id = "C01.TextQueryBackend.convert_condition_group"
+    target = f"{CB}:TextQueryBackend.convert_condition_group"
+    props = ("C01", "C18")
+    cases = ("text", "text-that-looks-grouped", "deferred", "vanished", "no-template")
+
+    def args(self, I, case):
+        idx = I.E.index
+        calls = []
+
+        def fmt(I2, a, k):
+            out = I2.fresh("grouped", "str")
+            calls.append((dict(k), out))
+            return out
+        if case == "deferred":
+            conv = SObj(idx.lookup("sigma.conversion.deferred:DeferredQueryExpression"), {}, lazy=True)
+        elif case == "vanished":
+            conv = None
+        elif case == "text-that-looks-grouped":
+            conv = "(a=1 or a=2) or (b=3 or b=4)"
+        else:
+            conv = I.fresh("converted", "str")
+        I.E.summaries[f"{CB}:TextQueryBackend.convert_condition"] = lambda I2, so, a, k: conv
+        me = SObj(idx.lookup(f"{CB}:TextQueryBackend"), {"group_expression": None if case == "no-template" else SObj("Template", {"format": NativeFn("format", fmt), "__str__": NativeFn("__str__", lambda I2, a, k: "({expr})")})}, lazy=True)
+        return {"self": me, "args": [SObj("Cond", {}), SObj("State", {})], "conv": conv, "calls": calls, "case": case}
+
+    def post(self, I, inp, r):
+        case, calls = inp["case"], inp["calls"]
+        c = I.ctx
+        c.require(case != "no-template", "without group template: not supported")
+        if case in ("deferred", "vanished"):
+            c.require(r is inp["conv"] and calls == [], "deferred parts / vanished conditions pass through ungrouped")
+        else:
+            c.require(len(calls) == 1 and set(calls[0][0]) == {"expr"} and (calls[0][0]["expr"] is inp["conv"] or calls[0][0]["expr"] == inp["conv"]) and r is calls[0][1], "the converted text inside the group template, always")
+
+    def raises(self, I, inp, exc):
+        I.ctx.require(inp["case"] == "no-template" and exc_name(exc) == "NotImplementedError", f"NotImplementedError without template only (got {exc_name(exc)})", kind="SAFE")
+
+    def frame_ok(self, I, inp, obj, name):
+        return False
